@@ -7,7 +7,7 @@
    mono xs = strictly ascending or strictly descending; lo_of / hi_of = its smallest / largest end.
    All theorems hold for sources / grids of ANY length >= 2 in BOTH directions and EVERY target;
    the only restriction left is the single-level source (C17_single_level_refuted, a known finding). *)
-From PNC Require Import Base.Util Model.Interp Proofs.InterpProofs Proofs.SigmaProofs.
+From PNC Require Import Base.Util Gen.InterpSrc Model.Interp Proofs.InterpProofs Proofs.SigmaProofs.
 Local Open Scope Z_scope.
 
 (* weights sum to one for every target point (inside, outside, extrapolating or clipped), the
@@ -90,11 +90,27 @@ Theorem C17_column_mass_algebra : forall n (fdp : list (list Z)) v,
 Proof. intros. unfold impl_conserve. cbn [fst]. apply colsums_total; auto. Qed.
 Print Assumptions C17_column_mass_algebra.
 
-(* a single source level: the weights are NaN (None), not the identity *)
+(* a single source level.  Which of the two behaviours the code has is regenerated from the
+   source on every run (Gen/InterpSrc.v, tie T): impl_weights = impl_weights_gen <flag>. *)
+Theorem C17_model_follows_source : impl_weights = impl_weights_gen Gen.InterpSrc.single_level_ones.
+Proof. reflexivity. Qed.
+Print Assumptions C17_model_follows_source.
+
+(* without the guard the weights are NaN (None), not the identity: known finding *)
 Theorem C17_single_level_refuted : exists e xs x,
-  (1 <= length xs)%nat /\ x = nth 0 xs 0 /\ impl_weights e xs x = None.
+  (1 <= length xs)%nat /\ x = nth 0 xs 0 /\ impl_weights_gen false e xs x = None.
 Proof. exists false, [3], 3. vm_compute. repeat split; auto. Qed.
 Print Assumptions C17_single_level_refuted.
+
+(* with the guard (fixes/C17-getinterpweights-single-level.patch) a single level gets weight one
+   for every target: partition of unity, non-negative, identity at the source point, and exact
+   for every linear profile at the only point inside the source range *)
+Theorem C17_single_level_repaired : forall e x0 x a b,
+  impl_weights_gen true e [x0] x = Some ([1], 1)
+  /\ sumZ [1] = 1 /\ Forall (fun n => 0 <= n) [1] /\ [1] = unitv 0 1 1
+  /\ (x = x0 -> dot [1] (map (fun c => a * c + b) [x0]) = 1 * (a * x + b)).
+Proof. exact single_level_guarded. Qed.
+Print Assumptions C17_single_level_repaired.
 
 (* ---- non-vacuity ------------------------------------------------------------------------- *)
 Example C17_hyp_inhabited :
